@@ -1,6 +1,7 @@
 import JunoModel.Common.Proto
 import JunoModel.C10.Model
 import JunoModel.C10.ModelR5
+import JunoModel.C10.ModelR6
 /-!
 Line-protocol driver for the C10 model (`lake build c10drv`).
 
@@ -36,6 +37,9 @@ it looks the value up in the table built from these facts.
 
 * `pr <legacy 0|1> <height> <leftbits> <rightbits> <keybits=value>* | <a:b:h>*` — `GetRangeProof(left, right)`
   (`rangeProve`) on the trie of the key/value set: answer `root <felt> <node>*` in the order of the set.
+* `pm <legacy 0|1> <height> <keybits>(,<keybits>)* <keybits=value>* | <a:b:h>* | <node>*` — `Prove` of every key, in
+  order, INTO ONE SET that already holds the given nodes (`proveInto`; the last part may be empty): answer
+  `root <felt> <node>*` in the order of the set.
 * `blk <latest|pre_confirmed|l1_accepted|number|hash> <number|hash|-> <height> <number the hash resolves to|->` —
   `isBlockSupported`; answer `ok` | `preconfirmed` | `notfound` | `notsupported`.
 * `rpc <legacy 0|1> <height> <block id kind> <number|hash|-> <chain height> <resolved number|-> | <section>*` — the
@@ -333,6 +337,11 @@ def step (s : Unit) (line : String) : Unit × String :=
     | some cfg, some root, some (h, key), some (ps, tbl) =>
       (s, showRes (verify2Felt (tableAlg tbl) cfg h root key ps))
     | _, _, _, _ => (s, "bad-op")
+  | "v2w" :: cfg :: root :: key :: nodes =>
+    match parseCfg cfg, hexToNat? root, parseKey key, parseNodes nodes with
+    | some cfg, some root, some (h, key), some (ps, tbl) =>
+      (s, showRes (verify2WFelt (tableAlg tbl) cfg h root key ps))
+    | _, _, _, _ => (s, "bad-op")
   | "r2" :: cfg :: "single" :: root :: key :: value :: nodes =>
     match parseRCfg cfg, hexToNat? root, parseBits key, hexToNat? value, parseNodes nodes with
     | some f, some root, some key, some value, some (ps, tbl) =>
@@ -389,6 +398,18 @@ def step (s : Unit) (line : String) : Unit × String :=
       let A := tableAlg tbl
       let t : Trie Nat := build h kvs
       let ps := rangeProve A (legacy == "1") h t (pathVal l) (pathVal r)
+      (s, "root " ++ natToHex (t.hash A) ++ String.join (ps.map (fun e => " " ++ showNode e)))
+    | _, _, _, _, _ => (s, "bad-op")
+  | "pm" :: legacy :: height :: keys :: rest =>
+    let (kvToks, rest2) := splitAtBar rest
+    let (factToks, nodeToks) := splitAtBar rest2
+    match height.toNat?, parseAll parseBits (keys.splitOn ","), parseAll parseKV kvToks, parseAll parseFact factToks,
+        parseNodes nodeToks with
+    | some h, some ks, some kvs, some facts, some (pre, tbl) =>
+      if legacy != "0" && legacy != "1" then (s, "bad-op") else
+      let A := tableAlg (facts ++ tbl)
+      let t : Trie Nat := build h kvs
+      let ps := proveInto A (legacy == "1") h t pre (ks.map pathVal)
       (s, "root " ++ natToHex (t.hash A) ++ String.join (ps.map (fun e => " " ++ showNode e)))
     | _, _, _, _, _ => (s, "bad-op")
   | "r2f" :: cfg :: ck :: root :: first :: mode :: rest =>
